@@ -797,3 +797,193 @@ def vstrat_cases(ctx, drv, tier):
                          sample={"kind": "vstrat", "strategy": strat, "vdist": vdist, "amount": p["amount"]})
                 B.report_model_fails(ctx, fails, p, lambda p=p: bool(run_vstrat(None, None, p, want_driver=False)))
     ctx.notes["variational_strategy_classes"] = per
+
+
+# ------------------------------------------------------------------------------------------------ W4 OVC fantasies
+# ApproximateGP.get_fantasy_model (online variational conditioning, Maddox et al. 2021): the SVGP is an exact GP over the
+# inducing points Z with pseudo-targets y_hat and pseudo-noise D_hat = (S_u^-1 - K_ZZ^-1)^-1; conditioning on (X_f, y_f)
+# is exact-GP conditioning on [Z; X_f] with noise blockdiag(D_hat, sigma^2 I).  Judged: every covariance handed out is
+# symmetric PSD, prior - posterior PSD, variance = diagonal, AND conditioning never adds uncertainty (fantasy variance <=
+# q(f) variance before the fantasy), AND equal to the dense conditional.
+
+OVC_KEY = "ovc-fantasy-pseudo-noise-dropped:fast_pred_var-off"
+
+
+def ovc_payload(rng, strategy):
+    import torch
+    g = torch.Generator().manual_seed(rng.torch_seed())
+    d = rng.choice([1, 2])
+    M = rng.choice([3, 4, 5])
+    Q, _ = torch.linalg.qr(torch.randn(M, M, generator=g))
+    ev = torch.rand(M, generator=g) * 0.5 + 0.08            # eigenvalues of the whitened S in [0.08, 0.58]: S < I, well conditioned
+    S = Q @ torch.diag(ev) @ Q.T
+    return {"kind": "ovc", "strategy": strategy, "d": d, "kernel": rng.choice(["rbf", "matern1.5"]), "s": rng.choice([0.5, 1.0, 2.0]),
+            "l": rng.choice([0.5, 0.8]), "noise": rng.choice([0.02, 0.1]), "inducing": (torch.rand(M, d, generator=g) * 2).tolist(),
+            "S_whitened": ((S + S.T) / 2).tolist(), "vmean": (torch.randn(M, generator=g) * 0.5).tolist(),
+            "fant_x": (torch.rand(rng.choice([1, 2, 3]), d, generator=g) * 2).tolist(),
+            "test_x": (torch.rand(rng.choice([2, 3, 4]), d, generator=g) * 2).tolist(), "fant_seed": rng.getrandbits(20)}
+
+
+def _ovc_model(p):
+    import torch
+    import gpytorch
+    Z = torch.tensor(p["inducing"])
+    M = Z.shape[0]
+    cls = gpytorch.variational.VariationalStrategy if p["strategy"] == "whitened" else gpytorch.variational.UnwhitenedVariationalStrategy
+
+    class GP(gpytorch.models.ApproximateGP):
+        def __init__(self):
+            vd = gpytorch.variational.CholeskyVariationalDistribution(M)
+            super().__init__(cls(self, Z, vd, learn_inducing_locations=False))
+            self.mean_module = gpytorch.means.ZeroMean()
+            b = gpytorch.kernels.RBFKernel() if p["kernel"] == "rbf" else gpytorch.kernels.MaternKernel(nu=1.5)
+            self.covar_module = gpytorch.kernels.ScaleKernel(b)
+            self.likelihood = gpytorch.likelihoods.GaussianLikelihood()
+
+        def forward(self, x):
+            return gpytorch.distributions.MultivariateNormal(self.mean_module(x), self.covar_module(x))
+    m = GP()
+    m.likelihood.noise = p["noise"]
+    m.covar_module.outputscale = p["s"]
+    m.covar_module.base_kernel.lengthscale = p["l"]
+    m.eval()
+    m.likelihood.eval()
+    Sw = torch.tensor(p["S_whitened"])
+    with torch.no_grad(), warnings.catch_warnings():
+        warnings.simplefilter("ignore")
+        Kzz = m.covar_module(Z).to_dense()
+        L = torch.linalg.cholesky(Kzz)
+        S = Sw if p["strategy"] == "whitened" else L @ Sw @ L.T       # unwhitened: S_u = L S L^T  (so S_u < K)
+        mv = torch.tensor(p["vmean"]) if p["strategy"] == "whitened" else L @ torch.tensor(p["vmean"])
+        m(torch.tensor(p["test_x"]))
+        vd = m.variational_strategy._variational_distribution
+        vd.chol_variational_covar.copy_(torch.linalg.cholesky((S + S.T) / 2))
+        vd.variational_mean.copy_(mv)
+        m.train()
+        m.eval()
+        m.likelihood.eval()
+    return m, Kzz, L, Sw
+
+
+def run_ovc(ctx, drv, p, want_driver=True, judge_known=True):
+    import torch
+    import gpytorch
+    B = _B()
+    fails = []
+    Z, xf, xs = torch.tensor(p["inducing"]), torch.tensor(p["fant_x"]), torch.tensor(p["test_x"])
+    M, nf = Z.shape[0], xf.shape[0]
+    g = torch.Generator().manual_seed(p["fant_seed"])
+    yf = torch.randn(nf, generator=g)
+    name = "VariationalStrategy" if p["strategy"] == "whitened" else "UnwhitenedVariationalStrategy"
+    tag0 = f"{name}/Cholesky {p['kernel']} d={p['d']} M={M}: get_fantasy_model with {nf} point(s)"
+    out = {}
+    for fpv in (False, True):
+        m, Kzz, L, Sw = _ovc_model(p)
+        with torch.no_grad(), warnings.catch_warnings():
+            warnings.simplefilter("ignore")
+            q = m(xs)
+            qvar, qcov = q.variance.clone(), q.covariance_matrix.clone()
+            k = m.covar_module
+            with gpytorch.settings.fast_pred_var(fpv):
+                fm = m.get_fantasy_model(xf, yf)
+                post_d = fm(xs)
+                fails += dist_consistency(post_d, f"{tag0}, fast_pred_var({fpv}): fantasy posterior", "ovc-fantasy-posterior")
+                fcov = post_d.covariance_matrix.clone()
+                fmean = post_d.mean.clone()
+                code_targets = fm.train_targets.detach().reshape(-1).clone()     # [pseudo-targets as the code computed them; y_f]
+            XA = torch.cat([Z, xf])
+            KA, KsA, Kss = k(XA).to_dense(), k(xs, XA).to_dense(), k(xs).to_dense()
+        Dw = torch.linalg.inv(torch.linalg.inv(Sw) - torch.eye(M))          # whitened pseudo-noise (S^-1 - I)^-1
+        Dhat = L @ Dw @ L.T
+        N = torch.zeros(M + nf, M + nf)
+        N[:M, :M] = Dhat
+        N[M:, M:] = p["noise"] * torch.eye(nf)
+        scale = max(torch.linalg.eigvalsh((Kss + Kss.T) / 2).abs().max().item(), 1e-300)
+        if torch.linalg.cond(KA + N).item() > 1e5 or torch.linalg.cond(Kzz).item() > 1e5:
+            ctx is not None and ctx.count("ovc_discarded_ill_conditioned")
+            return fails
+        ref = Kss - KsA @ torch.linalg.solve(KA + N, KsA.T)
+        allnoise = Kss - KsA @ torch.linalg.solve(KA + p["noise"] * torch.eye(M + nf), KsA.T)
+        # pseudo-targets y_hat = D_hat S_u^-1 m_u = L (I - S)^-1 m (whitened parameters), zero prior mean
+        yA = torch.cat([L @ torch.linalg.solve(torch.eye(M) - Sw, torch.tensor(p["vmean"])), yf])
+        ref_mean = KsA @ torch.linalg.solve(KA + N, yA)
+        allnoise_mean = KsA @ torch.linalg.solve(KA + p["noise"] * torch.eye(M + nf), code_targets)
+        msc = max(ref_mean.abs().max().item(), yA.abs().max().item(), 1.0)
+        out[fpv] = {"mdev": (fmean - ref_mean).abs().max().item() / msc, "mdev_allnoise": (fmean - allnoise_mean).abs().max().item() / msc,
+                    "fcov": fcov, "dev": (fcov - ref).abs().max().item() / scale, "dev_allnoise": (fcov - allnoise).abs().max().item() / scale,
+                    "inc": (fcov.diagonal() - qvar).max().item() / scale, "ref_inc": (ref.diagonal() - qvar).max().item() / scale}
+        for nm, Mx in (("fantasy posterior", fcov), ("prior-minus-fantasy-posterior", (Kss + Kss.T) / 2 - fcov)):
+            sm, info = B.cov_screen(Mx, scale)
+            for sym, detail in sm:
+                mag = info.get("asym_rel", 0.0) if sym == "asymmetric" else max(abs(min(info.get("rel_min_eig", 0.0), 0.0)), B.EIG_TOL)
+                fails.append((f"ovc-fantasy-{nm.replace(' ', '-')}-{sym}:{name}", f"{tag0}, fast_pred_var({fpv}): {nm} covariance {detail}", sym, mag,
+                              f"OVC({name})/{nm}"))
+        if want_driver and drv is not None:
+            rows = B.sym_rows(B.rat_rows(fcov))
+
+            def cb3(rep, rows=rows, fpv=fpv):
+                parts = rep.split(";")
+                if len(parts) != 2:
+                    return
+                dd = B.parse_decision(parts[1])
+                ctx.count("model_cov_certified")
+                if dd[0] == "neg":
+                    ctx.fail(f"ovc-fantasy-posterior-indefinite:{name}", f"{tag0}, fast_pred_var({fpv}): exact negative curvature "
+                             f"{float(B.quad(rows, dd[2])):.3e}", dict(p, witness_v=[C.rat_str(x) for x in dd[2]]))
+            drv.ask(f"psd {C.rat_str(B.fr(B.EIG_TOL * scale))} {B.rows_tokens(rows)}", cb3)
+    TOL = 2e-3       # the code's own jitters (pseudo_points: (R R^T + jitter)^-1, Cholesky jitter) move the result by <= ~1e-4
+    signature = out[False]["dev_allnoise"] <= 1e-9 and out[True]["dev"] <= TOL and out[False]["dev"] > TOL
+    for fpv in (False, True):
+        o = out[fpv]
+        probs = []
+        if o["dev"] > TOL:
+            probs.append(f"the fantasy posterior covariance differs from the dense conditional K** - K*A (K_AA + blockdiag(D_hat, sigma^2 I))^-1 KA* "
+                         f"by {o['dev']:.3e} of the prior scale")
+        if o["inc"] > 1e-3 and o["ref_inc"] <= 1e-6:
+            probs.append(f"a posterior variance is {o['inc']:.3e} (of the prior scale) ABOVE the q(f) variance before the fantasy: conditioning on "
+                         f"more data added uncertainty (dense conditional: {o['ref_inc']:.1e})")
+        if o["mdev"] > 5e-3:
+            whatm = (f"{tag0}, fast_pred_var({fpv}): the fantasy posterior MEAN differs from the dense conditional mean "
+                     f"K*A (K_AA + blockdiag(D_hat, sigma^2 I))^-1 [y_hat; y_f] by {o['mdev']:.3e} (relative to the target scale)")
+            if o["mdev_allnoise"] <= 1e-8:
+                fails.append((f"ovc-fantasy-pseudo-noise-dropped:mean-cache/{name}", whatm + f"; signature of the recorded defect: the mean equals the "
+                              f"conditional mean with sigma^2 I in place of D_hat to {o['mdev_allnoise']:.1e} — the OVC mean cache is stored under "
+                              f"the key ('mean_cache', ()) but read under ('mean_cache', (nan_policy,)), so it is recomputed from likelihood(prior)"))
+            else:
+                fails.append((f"ovc-fantasy-mean-vs-conditional:fast_pred_var-{'on' if fpv else 'off'}/{name}", whatm))
+        if not probs:
+            continue
+        what = f"{tag0}, fast_pred_var({fpv}): " + "; ".join(probs)
+        if signature and not fpv:
+            what += (f"; signature of the recorded defect: the covariance equals the posterior with the likelihood noise sigma^2 I in place of the "
+                     f"pseudo-noise D_hat on the inducing block to {o['dev_allnoise']:.1e}, and the fast_pred_var(True) result matches the dense "
+                     f"conditional ({out[True]['dev']:.1e}) — exact_predictive_covar recomputes likelihood(prior) and drops lik_train_train_covar")
+            fails.append((f"{OVC_KEY}/{name}", what))
+        else:
+            fails.append((f"ovc-fantasy-vs-conditional:fast_pred_var-{'on' if fpv else 'off'}/{name}", what))
+    return fails
+
+
+def ovc_cases(ctx, drv, tier):
+    import fnmatch
+    B = _B()
+    rng = ctx.rng("ovc")
+    reps = 3 if tier == "quick" else 30
+    registered = any(fnmatch.fnmatch(f"{OVC_KEY}/VariationalStrategy", f.get("match", "")) for f in C.known_findings("C07"))
+    obs = {"cases": 0, "with_signature": 0, "max_variance_increase_rel": 0.0, "registered_as_known_finding": registered}
+    for strategy in ("whitened", "unwhitened"):
+        for _ in range(reps):
+            p = ovc_payload(rng, strategy)
+            try:
+                fails = run_ovc(ctx, drv, p)
+            except Exception as e:
+                ctx.broke("correspondence", f"ovc:{strategy}", f"{type(e).__name__}: {e}"[:600])
+                continue
+            ctx.case(f"ovc {strategy} {p['kernel']} d={p['d']} M={len(p['inducing'])} nf={len(p['fant_x'])} seed={p['fant_seed']}",
+                     sample={"kind": "ovc", "strategy": strategy})
+            obs["cases"] += 1
+            for f in fails:
+                if f[0].startswith("ovc-fantasy-pseudo-noise-dropped:"):
+                    obs["with_signature"] += 1
+            B.report_model_fails(ctx, fails, p, lambda p=p: bool(run_ovc(None, None, p, want_driver=False)))
+    ctx.notes["ovc_fantasy"] = obs
